@@ -4,6 +4,7 @@ from __future__ import annotations
 from abc import abstractmethod
 from asyncio import shield
 from collections.abc import Iterable, Sequence
+from dataclasses import replace
 from typing import Generic, Any
 
 from pymap.concurrent import Event
@@ -17,7 +18,7 @@ from pymap.mailbox import MailboxSnapshot
 from pymap.parsing.message import AppendMessage
 from pymap.parsing.specials import SequenceSet, SearchKey, ObjectId, \
     FetchRequirement
-from pymap.parsing.specials.flag import Flag, Seen
+from pymap.parsing.specials.flag import Flag, Recent, Seen
 from pymap.parsing.response.code import AppendUid, CopyUid
 from pymap.search import SearchParams, SearchCriteriaSet
 from pymap.selected import SelectedMailbox
@@ -178,6 +179,9 @@ class BaseSession(SessionInterface, Generic[MessageT]):
         uids: list[int] = []
         try:
             for append_msg in messages:
+                # the recent flag belongs to sessions, it is never stored
+                append_msg = replace(
+                    append_msg, flag_set=append_msg.flag_set - {Recent})
                 msg = await mbx.append(append_msg, recent=not dest_selected)
                 if dest_selected:
                     dest_selected.session_flags.add_recent(msg.uid)
